@@ -33,14 +33,7 @@ def run_case(case, rec, cid):
     if recur.known_class(desc):
         # the iteration of this class is a recorded C12 finding: C13 speaks about what iteration yields, so the series is
         # handed to the specification as given and only the queries are judged
-        forward = not (desc["fmt"] == 4 and desc["n"] == 0)
-        pts, complete = [], True
-        for q in r:
-            pts.append(q)
-            if len(pts) >= (desc["n"] + 2 if desc["n"] else recur.UNBOUNDED_TAKE):
-                complete = False
-                break
-        rec.ev("IterGiven", cid, inp=recur.inp_of(desc, r), forward=forward, pts=[proj_tp(q) for q in pts], complete=complete)
+        pts, complete = recur.given(rec, cid, desc, r)
     else:
         pts, complete = recur.iterate(rec, cid, desc, r)
     if not pts:
